@@ -954,7 +954,7 @@ func c01PrevTest(c *Ctx, fn *ssa.Function) {
 		if uidSrc == nil || remoteSlice(uidSrc) == nil {
 			return false, "UID of the potential remote owner is not the UID of an element of prev.GetRemotePhases()"
 		}
-		if stripConv(nameSrc) != stripConv(uidSrc) {
+		if stripConv(nameSrc) != stripConv(uidSrc) && !p.sameValue(nameSrc, uidSrc) {
 			return false, "name and UID of the potential remote owner come from different remote phase references"
 		}
 		if !nsOK {
@@ -1313,10 +1313,8 @@ func c01r5(c *Ctx) {
 	}
 	hasDynDelete := map[*ssa.Function]bool{}
 	all := allWriterSites(p.productFuncs())
-	for _, ws := range all {
-		if ws.Verb == "Delete" && ws.Class != "typed" {
-			hasDynDelete[ws.Call.Fn] = true
-		}
+	for _, dc := range p.dynDeleteContexts() {
+		hasDynDelete[dc.Fn] = true // the teardown function, also when the Delete call sits in a helper
 	}
 	for _, ws := range all {
 		if ws.Class == "typed" || strings.HasPrefix(ws.Verb, "Status.") {
